@@ -43,6 +43,7 @@ type AccountingManager struct {
 	// Lifecycle
 	ctx    context.Context
 	cancel context.CancelFunc
+	quit   chan struct{} // closed by Stop: workers exit without aborting an in-flight send
 	wg     sync.WaitGroup
 
 	// Counter fetcher (callback to get session counters from eBPF)
@@ -176,6 +177,7 @@ func NewAccountingManager(client *Client, config AccountingConfig, logger *zap.L
 		pendingRecords: make(map[string]*PendingAcctRecord),
 		ctx:            ctx,
 		cancel:         cancel,
+		quit:           make(chan struct{}),
 		persistPath:    config.PersistPath,
 	}, nil
 }
@@ -227,18 +229,35 @@ func (am *AccountingManager) Stop() error {
 	am.logger.Info("Stopping accounting manager")
 
 	// Drain sessions if configured
+	var drained []string
 	if am.config.DrainOnShutdown {
-		am.drainAllSessions()
+		drained = am.drainAllSessions()
 	}
+
+	// Stop the workers and wait for them; a send that is in flight is allowed
+	// to finish (its acknowledgement must not be discarded), so that the retry
+	// queue is final when it is persisted
+	close(am.quit)
+	am.wg.Wait()
 
 	// Persist pending records before shutdown
 	if err := am.persistPendingRecords(); err != nil {
 		am.logger.Warn("Failed to persist pending records", zap.Error(err))
+	} else {
+		// The Stop of every drained session has been accepted or is now in
+		// pending.json: forget the session, otherwise the next Start() would
+		// recover it as an orphan and send its Stop a second time.
+		am.sessionsMu.Lock()
+		for _, id := range drained {
+			delete(am.sessions, id)
+		}
+		am.sessionsMu.Unlock()
+		for _, id := range drained {
+			am.removePersistedSession(id)
+		}
 	}
 
-	// Cancel context and wait for workers
 	am.cancel()
-	am.wg.Wait()
 
 	am.logger.Info("Accounting manager stopped")
 	return nil
@@ -432,6 +451,8 @@ func (am *AccountingManager) interimUpdateLoop() {
 		select {
 		case <-am.ctx.Done():
 			return
+		case <-am.quit:
+			return
 		case <-ticker.C:
 			if am.config.InterimEnabled {
 				am.sendInterimUpdates()
@@ -578,6 +599,9 @@ func (am *AccountingManager) pendingRecordProcessor() {
 		case <-am.ctx.Done():
 			return
 
+		case <-am.quit:
+			return
+
 		case record := <-am.pendingQueue:
 			am.processPendingRecord(record)
 
@@ -681,8 +705,9 @@ func (am *AccountingManager) retryPendingRecords() {
 	}
 }
 
-// drainAllSessions sends Accounting-Stop for all active sessions
-func (am *AccountingManager) drainAllSessions() {
+// drainAllSessions sends Accounting-Stop for all active sessions and returns
+// the IDs of the sessions whose Stop was accepted or queued for retry
+func (am *AccountingManager) drainAllSessions() []string {
 	am.logger.Info("Draining all sessions for shutdown")
 
 	am.sessionsMu.RLock()
@@ -696,12 +721,19 @@ func (am *AccountingManager) drainAllSessions() {
 	ctx, cancel := context.WithTimeout(context.Background(), am.config.ShutdownTimeout)
 	defer cancel()
 
-	var wg sync.WaitGroup
+	var (
+		wg        sync.WaitGroup
+		drainedMu sync.Mutex
+		drained   []string
+	)
 	for _, session := range sessions {
 		wg.Add(1)
 		go func(s *AccountingSession) {
 			defer wg.Done()
 			am.sendAccountingStopSync(ctx, s, TerminateCauseNASReboot)
+			drainedMu.Lock()
+			drained = append(drained, s.SessionID)
+			drainedMu.Unlock()
 		}(session)
 	}
 
@@ -720,6 +752,10 @@ func (am *AccountingManager) drainAllSessions() {
 			zap.Int("total", len(sessions)),
 		)
 	}
+
+	drainedMu.Lock()
+	defer drainedMu.Unlock()
+	return append([]string(nil), drained...)
 }
 
 // sendAccountingStopSync sends an Accounting-Stop synchronously with the given context
